@@ -683,6 +683,13 @@ func c07Tool(args []string) int {
 		}
 		return 0
 	}
+	if len(args) > 1 && args[0] == "casefile" {
+		// print the case line of a source text read from a file
+		b, err := os.ReadFile(args[1])
+		check(err)
+		fmt.Printf("0\t%s\n", c07Payload(string(b)))
+		return 0
+	}
 	if len(args) > 1 && args[0] == "runfile" {
 		// run one source text read from a file (payloads too long for a command line)
 		b, err := os.ReadFile(args[1])
